@@ -136,6 +136,32 @@ def referrer_files(case):
     return out
 
 
+SIBLING_NAMES = {"before": ["A0Sib"], "after": ["zz9Sib"], "both": ["A0Sib", "zz9Sib"], "none": []}
+
+
+def sibling_files(case):
+    """(relative path, text) of valid definitions of the same root namespace that use the DEPENDENCIES of the definition
+    under test (the same dependency is then referred to by several definitions within one read, in both processing
+    orders).  A sibling is deprecated whenever it uses a deprecated dependency, so it is valid on its own account whatever
+    the definition under test looks like; dependencies are used directly as field types and through arrays."""
+    deps = [d for d in case["deps"] if not d["service"]]
+    out = []
+    if not deps:
+        return out
+    for k, name in enumerate(SIBLING_NAMES[case.get("siblings", "none")]):
+        lines = []
+        if any(d["deprecated"] for d in deps) or (k + len(deps)) % 2 == 0:
+            lines.append("@deprecated")
+        for j, d in enumerate(deps):
+            ref = "%s.%d.%d" % (".".join([d["root"]] + list(d["ns"]) + [d["short"]]), d["ver"][0], d["ver"][1])
+            lines.append("%s direct%d" % (ref, j))
+            if (j + k) % 2 == 0:
+                lines.append(["%s[<=3] many%d", "%s[2] pair%d"][(j + k) % 4 // 2] % (ref, j))
+        lines.append("@sealed" if k == 0 else "@extent 8 * 1024 * 1024 * 1024")
+        out.append(("%s/%s.1.0.dsdl" % (case["id"]["root"], name), "\n".join(lines) + "\n"))
+    return out
+
+
 def dep_sections(d):
     sec = []
     if d["deprecated"]:
@@ -390,13 +416,19 @@ def run_impl(cases):
                 p.parent.mkdir(parents=True, exist_ok=True)
                 p.write_text(text, encoding="utf8")
                 ref_paths.append(p)
+            sib_paths = []
+            for rp, text in sibling_files(case):
+                p = base / "t" / rp
+                p.parent.mkdir(parents=True, exist_ok=True)
+                p.write_text(text, encoding="utf8")
+                sib_paths.append(p)
             transitive = []
             try:
                 if case["api"] == "files-referrer" and ref_paths:
                     direct, transitive = pydsdl.read_files([ref_paths[0]], [tgt_root], sorted(lookups),
                                                            allow_unregulated_fixed_port_id=case["allow"])
                 elif case["api"] in ("files", "files-referrer"):
-                    direct, _ = pydsdl.read_files([tgt_file], [tgt_root], sorted(lookups),
+                    direct, _ = pydsdl.read_files(sib_paths + [tgt_file], [tgt_root], sorted(lookups),
                                                   allow_unregulated_fixed_port_id=case["allow"])
                 else:
                     direct = pydsdl.read_namespace(tgt_root, sorted(lookups),
@@ -858,6 +890,8 @@ def inj_deprecated_dep(rng, case):
     r = dep_ref(rng, case["id"], d)
     t = rng.choice([["s", r], ["fix", r, gen_capacity(rng)], ["vari", r, gen_capacity(rng)], ["vare", r, 1 + gen_capacity(rng)]])
     _insert_attr(rng, case, ["field", t, _fresh(rng, case)])
+    if rng.random() < 0.8:
+        case["siblings"] = rng.choice(["before", "after", "both"])
     return "deprecated-dep:" + t[0]
 
 
@@ -1258,6 +1292,9 @@ def finish(rng, case):
                 case["api"] = "files-referrer"
         else:
             case["referrers"] = "none"
+    if "siblings" not in case:
+        usable = [d for d in case["deps"] if not d["service"]]
+        case["siblings"] = rng.choice(["before", "after", "both", "both"]) if usable and rng.random() < 0.6 else "none"
     return case
 
 
@@ -1385,6 +1422,29 @@ def boundaries(rng):
             j = rng.randrange(len(c["sections"]))
             c["sections"][j] = [["dir", "union", None]] + [["field", ["s", ["uint", 8, "sat", False]], "v%d" % q] for q in range(nvar)] + [["dir", "sealed", None]]
             add(c, "union-variants:%d" % nvar)
+    # one dependency, several users within one read: deprecated / not, sealed / delimited dependency, every way of use,
+    # every processing order (the definition under test is named so that it sorts between the two sibling names)
+    for dep_deprecated in (False, True):
+        for dep_extent in (None, 64):
+            for use in ("s", "fix", "vari", "vare"):
+                for self_deprecated in (False, True):
+                    for sib in ("none", "before", "after", "both"):
+                        for where in ("message", "request", "response"):
+                            if where != "message" and sib in ("none", "after") and use != "s":
+                                continue
+                            c = minimal(service=(where != "message"), short=rng.choice(["Beta", "M", "user"]))
+                            d = {"root": "ns", "ns": [], "short": "Old", "ver": [1, 0], "deprecated": dep_deprecated, "service": False,
+                                 "union": False, "fields": [["s", ["uint", 8, "sat", False]]], "extent": dep_extent, "lookup": False}
+                            c["deps"] = [d]
+                            r = ["ref", rng.choice([["Old"], ["ns", "Old"]]), 1, 0]
+                            t = ["s", r] if use == "s" else [use, r, 3]
+                            sec = [["field", t, "old"], ["dir", "sealed", None]]
+                            c["sections"][1 if where == "response" else 0] = sec
+                            if self_deprecated:
+                                c["sections"][0].insert(0, ["dir", "deprecated", None])
+                            c["siblings"] = sib
+                            c["api"] = "namespace" if rng.random() < 0.8 else "files"
+                            add(c, "shared-dependency:%s" % ("deprecated" if dep_deprecated else "plain"))
     # directive placement and duplication, systematically, in a message and in both sections of a service
     F = ["field", ["s", ["uint", 8, "sat", False]], "a"]
     G2 = ["field", ["s", ["uint", 8, "sat", False]], "b"]
@@ -1481,7 +1541,7 @@ def describe(case, obs):
     v = "accepted" if obs["verdict"] == "accept" else "rejected" if obs["verdict"] == "InvalidDefinition" else "other:" + obs["verdict"]
     tags = case["tags"]
     planted = [t for t in tags if not t.startswith("boundary:") and t not in ("soup", "shuffle")]
-    keys = ["verdict:" + v, "api:" + case["api"], "referrers:" + case.get("referrers", "none"), "ending:" + case["ending"], "decor:" + case.get("decor", "plain"), "allow_unregulated:%s" % case["allow"],
+    keys = ["verdict:" + v, "api:" + case["api"], "referrers:" + case.get("referrers", "none"), "siblings:" + case.get("siblings", "none"), "ending:" + case["ending"], "decor:" + case.get("decor", "plain"), "allow_unregulated:%s" % case["allow"],
             "kind:%s" % ("service" if len(case["sections"]) == 2 else "message" if len(case["sections"]) == 1 else "3+sections"),
             "deps:%d" % min(len(case["deps"]), 3)]
     if not tags:
@@ -1535,7 +1595,9 @@ RULE = ("a case is one definition in abstract form (identity, statements per sec
         "with its dependencies into a scratch root namespace (plus lookup namespaces) and read with read_namespace (80 %) or "
         "read_files (20 %), allow_unregulated_fixed_port_id both ways; a third of the message definitions are accompanied by valid "
         "definitions of the same namespace that refer to them and are processed before and/or after them (or are the only file given to "
-        "read_files), so that a violating definition must be rejected whatever the processing order; streams: boundary neighbours of every numeric rule and every "
+        "read_files), so that a violating definition must be rejected whatever the processing order; 60 % of the definitions with dependencies are "
+        "accompanied by valid sibling definitions that use the same dependencies (directly and through arrays) and are processed "
+        "before and/or after them, so that one dependency object has several users with differing deprecation status within one read; streams: boundary neighbours of every numeric rule and every "
         "reserved name/pattern with near misses (targeted), the grid message/service x structure/union x deps x deprecated of valid "
         "skeletons, and skeletons with 0, 1 or 2 planted violations out of 23 categories (plus random permutations of a section) at random positions (random), and statement soups without any skeleton (hostile); "
         "non-trivial = at least two statements; distinct = by hash of the case")
